@@ -122,6 +122,14 @@ CAST_HAZARDS = [
 ]
 
 
+PATH_LISTS = ['(l (p (s 5) (l (i 10) (i 20) (i 30))) (p (s 6) (i 5)) (i 77))',
+              '(l (i 1) (p (s 5) (l (p (s 6) (l (i 7) (i 8))) (i 9))) (i 88) (i 99))',
+              '(l (p (s 5) (cl 97 98 99)) (p (s 6) (p (s 7) (i 1))))',
+              '(l (p (s 5) (l)))']
+PATH_PATHS = ['(syl (s 5) (i 1))', '(syl (s 5) (i 5))', '(syl (s 5) (i 3))', '(syl (s 5) (i -1))', '(syl (s 6) (i 0))', '(syl (i 0) (s 5))', '(syl (i 1) (s 6) (i 1))',
+              '(syl (s 9) (i 0))', '(syl (i 2) (i 0))', '(syl (s 5) (s 6))', '(syl (s 5) (s 6) (i 1))', '(syl (s 5) (s 6) (i 2))', '(syl (s 6) (s 7))', '(syl (s 5) (s 9))']
+
+
 def cast_targets():
     out = []
     for t in CAST_TARGET_TYPES:
@@ -153,7 +161,11 @@ def type_of_term(t):
             return k
     if t.startswith('(ty '):
         return 'Type'
-    return None
+    # structural fallback for terms outside the representative tables
+    HEADS = {'U': 'Unit', 'T': 'True', 'F': 'False', '(i': 'Number', '(f': 'Number', '(c': 'Char', '(b': 'Byte', '(s': 'Symbol', '(cl': 'CharList', '(cl)': 'CharList',
+             '(bl': 'ByteList', '(bl)': 'ByteList', '(syl': 'SymbolList', '(p': 'Pair', '(l': 'List', '(l)': 'List', '(cat': 'Concatenation', '(r': 'Range', '(sl': 'Slice',
+             '(pa': 'Partial', '(e': 'Expression', '(x': 'External', '(cu)': 'Custom'}
+    return HEADS.get(t.split(' ', 1)[0])
 
 
 def gen_cases(instrs_bin=None, instrs_un=None, stores=STORES, modes=MODES, reps=REPS):
@@ -177,6 +189,20 @@ def gen_cases(instrs_bin=None, instrs_un=None, stores=STORES, modes=MODES, reps=
                                     add(st, instr, m, b, a)   # the builder pushes right, then left
                                 else:
                                     add(st, instr, m, a, b)
+    # symbol-list paths into nested keyed lists (`list <~ (:a . 1)`): keys present / missing, indexes in and out of range of the
+    # value reached, a step that reaches a value which cannot be looked into; BasicGarnishData only where the path holds a
+    # number (SimpleGarnishData symbol lists cannot hold numbers)
+    if reps is REPS:
+        for instr in (instrs_bin if instrs_bin is not None else BINARY):
+            if instr not in ('Apply', 'Access'):
+                continue
+            for lst in PATH_LISTS:
+                for path in PATH_PATHS:
+                    for st in stores:
+                        if st == 'simple' and '(i ' in path:
+                            continue
+                        for m in modes:
+                            add(st, instr, m, lst, path)
     for instr in (instrs_un if instrs_un is not None else UNARY):
         for lt in TYPES:
             for a in reps[lt]:
